@@ -130,6 +130,7 @@ type profile struct {
 	glued      int // chance /10 that '{' is glued to the previous word
 	crlf       int // chance /10 that line ends are CRLF
 	indentTab  int // chance /10 that statements are indented with tabs
+	midQuote   int // chance /10 of a bare argument with a quote in its middle / at its end (it's, a"b, x')
 }
 
 var profiles = []profile{
@@ -143,11 +144,27 @@ var profiles = []profile{
 	{name: "block", blocks: 5},
 	{name: "block-glued", blocks: 5, glued: 5},
 	{name: "escape", escSemi: 4, varBrace: 4},
-	{name: "mixed", quoted: 3, quotedSemi: 3, nameTab: 2, argTab: 2, comments: 2, blocks: 2, escSemi: 1, varBrace: 1, glued: 1, crlf: 1, indentTab: 2},
+	{name: "midquote", quoted: 5, quotedSemi: 7, midQuote: 4},
+	{name: "mixed", midQuote: 1, quoted: 3, quotedSemi: 3, nameTab: 2, argTab: 2, comments: 2, blocks: 2, escSemi: 1, varBrace: 1, glued: 1, crlf: 1, indentTab: 2},
 }
 
 func (g *gen) arg(p profile) string {
 	switch {
+	case g.r.Chance(p.midQuote, 10):
+		// NGINX recognises quotes only at the START of a token (ngx_conf_read_token: `last_space`): a quote inside or at the
+		// end of a bare word is an ordinary character and does not open a quoted section
+		g.feats["midword-quote"] = true
+		q := g.pick("'", "'", "\"")
+		switch g.r.Intn(4) {
+		case 0:
+			return g.mark() + q + "S"
+		case 1:
+			return g.mark() + q + g.mark()
+		case 2:
+			return g.mark() + q
+		default:
+			return "$" + g.word(4) + q + g.mark() + q + g.mark() + q
+		}
 	case g.r.Chance(p.quoted, 10):
 		semi := g.r.Chance(p.quotedSemi, 10)
 		if semi {
